@@ -365,6 +365,7 @@ fn clean_item(it: &mut syn::Item, derive_keep: &[String], subst: &BTreeMap<Strin
 
 struct Rules {
     split_find: bool,
+    filter_map_collect: Option<String>,
     fmt_concat: bool,
     split_map_collect: Option<String>,
     cloned_collect_fn: Option<String>,
@@ -499,6 +500,43 @@ impl<'a> VisitMut for RuleVisitor<'a> {
             if let Some(n) = repl {
                 *e = n;
                 self.applied.bump("E18-split-map-collect-as-loop");
+            }
+        }
+        if let Some(elem_ty) = &self.rules.filter_map_collect {
+            // E21[=T]: `X.iter().filter_map(|p| BODY).collect()` ==> `{ let mut __vx_v = Vec::new(); for p in X.iter() { if let Some(__vx_y) = BODY
+            // { __vx_v.push(__vx_y); } } __vx_v }` (filter_map/collect over a slice iterator is the loop that keeps the Some results in order)
+            let mut repl: Option<Expr> = None;
+            if let Expr::MethodCall(c3) = &*e {
+                if c3.method == "collect" && c3.args.is_empty() {
+                    if let Expr::MethodCall(c2) = &*c3.receiver {
+                        if c2.method == "filter_map" && c2.args.len() == 1 {
+                            if let (Expr::Closure(cl), Expr::MethodCall(c1)) = (&c2.args[0], &*c2.receiver) {
+                                if c1.method == "iter" && c1.args.is_empty() && cl.inputs.len() == 1 {
+                                    let recv = &c1.receiver;
+                                    let pat = match &cl.inputs[0] { syn::Pat::Type(pt) => (*pt.pat).clone(), other => other.clone() };
+                                    let body = &cl.body;
+                                    let new_vec: Expr = if elem_ty.is_empty() { parse_quote!(Vec::new()) } else {
+                                        let t: syn::Type = syn::parse_str(elem_ty).unwrap_or(parse_quote!(_));
+                                        parse_quote!(Vec::<#t>::new())
+                                    };
+                                    repl = Some(parse_quote!({
+                                        let mut __vx_v = #new_vec;
+                                        for #pat in #recv.iter() {
+                                            if let Some(__vx_y) = #body {
+                                                __vx_v.push(__vx_y);
+                                            }
+                                        }
+                                        __vx_v
+                                    }));
+                                }
+                            }
+                        }
+                    }
+                }
+            }
+            if let Some(n) = repl {
+                *e = n;
+                self.applied.bump("E21-filter-map-collect-as-loop");
             }
         }
         if let Some(fname) = &self.rules.cloned_collect_fn {
@@ -1106,6 +1144,7 @@ fn transform_fn(
         .unwrap_or_default();
     let rules = Rules {
         split_find: rule_list.iter().any(|r| r == "E19"),
+        filter_map_collect: rule_list.iter().find_map(|r| if r == "E21" { Some(String::new()) } else { r.strip_prefix("E21=").map(String::from) }),
         fmt_concat: rule_list.iter().any(|r| r == "E20"),
         split_map_collect: rule_list.iter().find_map(|r| if r == "E18" { Some(String::new()) } else { r.strip_prefix("E18=").map(String::from) }),
         cloned_collect_fn: rule_list.iter().find_map(|r| r.strip_prefix("E17=").map(String::from)),
